@@ -11,6 +11,7 @@ import (
 	"go/types"
 	"regexp"
 	"sort"
+	"strconv"
 	"strings"
 
 	"golang.org/x/tools/go/ssa"
@@ -150,7 +151,7 @@ func dynCallName(cc *ssa.CallCommon) string {
 	return ""
 }
 
-var callsRe = regexp.MustCompile(`\bcalls\(\s*([A-Za-z_][A-Za-z0-9_.$]*)\s*\)`)
+var callsRe = regexp.MustCompile(`\bcalls\(\s*([A-Za-z_][A-Za-z0-9_.$]*)\s*(?:,\s*([0-9]+)\s*)?\)`)
 
 // trackedCalls: the names N for which the contract of the function under verification mentions calls(N).
 func (c *FuncCtx) trackedCalls() []string {
@@ -161,9 +162,13 @@ func (c *FuncCtx) trackedCalls() []string {
 	seen := map[string]bool{}
 	add := func(text string) {
 		for _, m := range callsRe.FindAllStringSubmatch(text, -1) {
-			if !seen[m[1]] {
-				seen[m[1]] = true
-				c.tracked = append(c.tracked, m[1])
+			n := m[1]
+			if m[2] != "" {
+				n += "#" + m[2] // calls(NAME, k): the k-th call site of NAME in source order
+			}
+			if !seen[n] {
+				seen[n] = true
+				c.tracked = append(c.tracked, n)
 			}
 		}
 	}
@@ -189,16 +194,28 @@ func callsKey(name string) HeapKey { return HeapKey{Name: "G_calls_" + sanitize(
 
 // countCall: after the call-site assertions of a call have been evaluated, every tracked name the call matches has
 // its ghost counter incremented (calls(N) in an assertion at N is therefore the number of EARLIER calls of N).
-func (f *Frame) countCall(cur *blockCur, cc *ssa.CallCommon, callee *ssa.Function) {
+func (f *Frame) countCall(cur *blockCur, in ssa.Instruction, cc *ssa.CallCommon, callee *ssa.Function) {
 	if f.callerFrame != nil {
 		return
 	}
 	for _, n := range f.c.trackedCalls() {
-		if assertMatches(n, cc, callee) {
+		if f.trackedMatches(n, in, cc, callee) {
 			k := callsKey(n)
 			cur.st = cur.st.set(k, fmt.Sprintf("(+ %s 1)", cur.st.get(k)))
 		}
 	}
+}
+
+// trackedMatches: does call instruction `in` count for the tracked name n (NAME or NAME#k)?
+func (f *Frame) trackedMatches(n string, in ssa.Instruction, cc *ssa.CallCommon, callee *ssa.Function) bool {
+	if i := strings.LastIndex(n, "#"); i > 0 {
+		k, err := strconv.Atoi(n[i+1:])
+		if err != nil || !assertMatches(n[:i], cc, callee) {
+			return false
+		}
+		return f.callOrdinal(n[:i], in) == k
+	}
+	return assertMatches(n, cc, callee)
 }
 
 // callOrdinal: the 1-based position of call instruction `in` among the calls of NAME in the function, by source position.
